@@ -609,7 +609,7 @@ impl Check for C12 {
         }
     }
     fn rule(&self) -> String {
-        "each evaluation = one generated world (as C06, plus both k-shortest-path algorithms, edge orientation, every input plugin in a generated order) + one batch of 0-12 values: valid queries and structure-aware mutations of them (non-object values, wrapped arrays, removed / ill-typed fields, six degenerate grid-search shapes, zero / ill-typed weights, ill-typed weight estimate, unknown vehicle, k and weight_factor overrides, out-of-range coordinates and ids, state-feature overrides, ill-typed vehicle rates), executed on a simulated pool under a seeded schedule with a budget of 1.5M scheduling points and 256 MiB allocated per thread. Violation = panic (reported with file + message), abort, deadlock, budget exceeded, run() failing as a whole, a query without an echoing response, or another query's response differing from its isolated run. The input breadth is input generation; the budget, the all-worker panic observation and the isolation comparison are what simulation adds. distinct = distinct (batch, schedule hash). Since round 2/3: energy worlds with unknown / ill-typed vehicle names and starting charges, values of 1-6 KiB (ASCII and two-byte characters, alone and in arrays), a response file in a quarter of the worlds, family disk-full = the response file meets a sticky ENOSPC / EIO (run() may fail, it must return; sleeping is simulated); family clock (round 6) = runtime limits of 1 s - 10 min with check frequency 1-50, alone or combined with iteration / size limits, under clock jumps of 1.5 s - 1 h: queries are stopped at arbitrary loop turns by arbitrary combinations of limits (a query stopped by the jumping clock is not compared with its isolated run) Round 7: family two-callers = a second caller thread hands a batch of its own (empty half of the time) to run() on the same application at the same time. Round 8: one case in seven goes through the language-binding interface (TOML configuration, JSON strings).".into()
+        "each evaluation = one generated world (as C06, plus both k-shortest-path algorithms, edge orientation, every input plugin in a generated order) + one batch of 0-12 values: valid queries and structure-aware mutations of them (non-object values, wrapped arrays, removed / ill-typed fields, six degenerate grid-search shapes, zero / ill-typed weights, ill-typed weight estimate, unknown vehicle, k and weight_factor overrides, out-of-range coordinates and ids, state-feature overrides, ill-typed vehicle rates), executed on a simulated pool under a seeded schedule with a budget of 1.5M scheduling points and 256 MiB allocated per thread. Violation = panic (reported with file + message), abort, deadlock, budget exceeded, run() failing as a whole, a query without an echoing response, or another query's response differing from its isolated run. The input breadth is input generation; the budget, the all-worker panic observation and the isolation comparison are what simulation adds. distinct = distinct (batch, schedule hash). Since round 2/3: energy worlds with unknown / ill-typed vehicle names and starting charges, values of 1-6 KiB (ASCII and two-byte characters, alone and in arrays), a response file in a quarter of the worlds, family disk-full = the response file meets a sticky ENOSPC / EIO (run() may fail, it must return; sleeping is simulated); family clock (round 6) = runtime limits of 1 s - 10 min with check frequency 1-50, alone or combined with iteration / size limits, under clock jumps of 1.5 s - 1 h: queries are stopped at arbitrary loop turns by arbitrary combinations of limits (a query stopped by the jumping clock is not compared with its isolated run) Round 7: family two-callers = a second caller thread hands a batch of its own (empty half of the time) to run() on the same application at the same time. Round 8: one case in seven goes through the language-binding interface (TOML configuration, JSON strings). Round 10: family history = two run() calls on one application (the malformed batch, then plain queries), each asking for a parallelism of its own; the second call must return too.".into()
     }
     fn assumptions(&self) -> Vec<String> {
         vec![
